@@ -22,7 +22,7 @@ from . import hodcommon as HC
 from . import hodrun as HR
 
 PID = 'C09'
-QUICK_RUNS = 500
+QUICK_RUNS = 3000
 QUICK_SECONDS = 150
 THOROUGH_SECONDS = 900
 CASE_TIMEOUT = 600
